@@ -259,7 +259,12 @@ def run_gen(prop, tier, tree, record):
         for p in [p for p in g if gm.is_dense(p)][:(4 if tier == "quick" else 12)]:
             cases.append([p, 0])
             cases.append([p, 1])
-        hs = [0, 1, 2] if tier == "quick" else [0, 1, 2, 3, 4, 5]
+        # larger name tables: a set that is left with a handful of free names has many possible iteration orders
+        for p in (dict(num_hosts=5, num_services=5, num_os=3, num_processes=2, num_exploits=19),
+                  dict(num_hosts=6, num_services=4, num_os=2, num_processes=3, num_exploits=11, num_privescs=3)):
+            for s in ((0, 1, 2) if tier == "quick" else range(6)):
+                cases.append([p, s])
+        hs = [0, 1, 2, 3, 4, 5] if tier == "quick" else list(range(12))
         hd, herr = gm.run_hashseeds(tree, cases, hs)
         extra["hashseed_sweep"] = {"cases": len(cases), "hashseeds": hs, "differences": len(hd), "errors": herr}
         k = 0
